@@ -24,6 +24,58 @@ def main():
             continue
         from csvpath import CsvPath, CsvPaths
 
+        named = st["via"] == "paths" and st.get("named")
+        if named:
+            # the job as a named run: its file registered under ONE shared name (whatever was registered under it before),
+            # its csvpath as a one-member group; the result is the member's
+            with scratch.silence():
+                if cp is None:
+                    cp = CsvPaths(delimiter=st["delimiter"], quotechar=st["quotechar"])
+                cp.delimiter, cp.quotechar = st["delimiter"], st["quotechar"]
+                raised, lines, p, cap = None, None, None, runner.CapturePrinter()
+                orig_factory = CsvPaths.csvpath
+
+                def factory(self_):
+                    q = orig_factory(self_)
+                    q.add_printer(cap)
+                    return q
+
+                CsvPaths.csvpath = factory
+                # the lines handed on are taken where they are decided (the archive stores them as text in its own dialect)
+                got_lines = []
+                orig_consider = CsvPath._consider_line
+
+                def consider(q, line):
+                    r = orig_consider(q, line)
+                    if r:
+                        got_lines.append(list(q.limit_collection(line)))
+                    return r
+
+                CsvPath._consider_line = consider
+                try:
+                    cp.file_manager.add_named_file(name="shared", path=st["file"])
+                    cp.paths_manager.add_named_paths(name="job", paths=[st["text"]])
+                    cp.collect_paths(pathsname="job", filename="shared")
+                    res = cp.results_manager.get_named_results("job")[0]
+                    p = res.csvpath
+                    lines = got_lines
+                except Exception as e:
+                    raised = f"{type(e).__name__}: {e}"[:200]
+                finally:
+                    CsvPaths.csvpath = orig_factory
+                    CsvPath._consider_line = orig_consider
+            if p is None:
+                out.append({"lines": None, "variables": None, "printed": [], "nerrors": 0, "valid": None, "scan_count": -1, "match_count": -1,
+                            "stopped": None, "headers": None, "raised": raised})
+                continue
+            try:
+                variables = json.loads(json.dumps(p.variables, sort_keys=True, default=repr))
+            except Exception:
+                variables = repr(p.variables)
+            out.append({"lines": lines, "variables": variables, "printed": cap.lines, "nerrors": len(res.errors or []) if res.errors is not None else 0,
+                        "valid": p.is_valid, "scan_count": p.scan_count, "match_count": p.match_count, "stopped": p.stopped,
+                        "headers": p.headers if p.scanner is not None else None, "raised": raised})
+            continue
         with scratch.silence():
             if st["via"] == "paths":
                 if cp is None:
